@@ -503,6 +503,12 @@ def lifetime_left_cases():
     return out
 
 
+def torn_cases():
+    """readers of a large hash / list racing writers that mutate it in place; run in a child process of the harness"""
+    return [{"mode": "torn", "kind": kd, "reader": rd, "fill": 20000, "reads": 300}
+            for kd, rd in (("hash", "get"), ("hash", "getallhash"), ("hash", "getlist"), ("list", "get"), ("list", "getlist"))]
+
+
 def exhaustive_small(rng, depth):
     """all histories of the given length over a reduced one-key alphabet (thorough tier)"""
     k = "k0"
@@ -707,7 +713,7 @@ def run(ctx, only_cases=None):
     else:
         cases = load_corpus()
         cases += [{"mode": "mem", "ops": ops, "scale": 1, "tol": MARGIN, "witness": f} for f, ops in WITNESSES]
-        n_mem, n_focus, n_redis, n_conc = (4000, 5000, 8000, 3000) if thorough else (400, 600, 900, 300)
+        n_mem, n_focus, n_redis, n_conc = (4000, 5000, 8000, 3000) if thorough else (400, 450, 800, 200)
         cases += [dict(c, mode="both", scale=1, tol=MARGIN) for c in lifetime_sweep("redis")]
         cases += collection_boundaries()
         cases += iso_cases()
@@ -726,9 +732,10 @@ def run(ctx, only_cases=None):
         cases += [gen_conc(rng, race_ok is True, cas_ok) for _ in range(n_conc)]
         cases += sweep_cases()
         cases += upgrade_cases()
+        cases += torn_cases()
     timed = [c for c in cases if c["mode"] in ("mem", "redis", "both", "iso")]
-    conc = [c for c in cases if c["mode"] in ("conc", "sweep", "upgrade")]
-    env = {"VERIF_C13_PAR": "64" if thorough else "40"}
+    conc = [c for c in cases if c["mode"] in ("conc", "sweep", "upgrade", "torn")]
+    env = {"VERIF_C13_PAR": "96" if thorough else "72"}
     outs = vlib.run_harness(binary, timed, timeout=1500, env=env) if timed else []
     try:
         couts = vlib.run_harness(binary, conc, timeout=900) if conc else []
@@ -786,6 +793,8 @@ def run(ctx, only_cases=None):
                 ops = [{"op": "set", "k": c["ops"][0]["k"], "v": "old", "ttl": SHORT}, {"op": "tick", "d": TICK}, {"op": "cleanup"}] + c["ops"]
                 terms.append(case_value(1, flags, 10 ** 12, ops, [["ok"], ["ok"], ["ok"]] + o["obs"]))
                 tags.append(("lin", idx))
+            continue
+        if c["mode"] == "torn":
             continue
         if c["mode"] == "upgrade":
             if o["prop_ok"]:   # the sequential order the harness accepted, replayed through the Spec
@@ -848,7 +857,7 @@ def run(ctx, only_cases=None):
     for c, o in zip(conc, couts):
         if not o["prop_ok"]:
             nfail += 1
-            ctx.violation(o["prop_key"], o["prop_msg"] + "  [%s]" % json.dumps(c.get("threads") or c["ops"])[:600],
+            ctx.violation(o["prop_key"], o["prop_msg"] + "  [%s]" % json.dumps(c.get("threads") or c.get("ops") or c)[:600],
                           {"case": c, "observed": o.get("tobs") or o.get("obs")})
     # ---- (ii) model vs implementation / reference ----
     # a case on which the isolation predicate already failed is reported by that predicate, not as a model mismatch
@@ -884,7 +893,7 @@ def run(ctx, only_cases=None):
 
     # ---- coverage ----
     def nontrivial(c, o):
-        if c["mode"] in ("conc", "sweep", "upgrade"):
+        if c["mode"] in ("conc", "sweep", "upgrade", "torn"):
             return o.get("overlap", 0) > 0
         kinds = {x["op"] for x in c["ops"]}
         answers = {json.dumps(x[:1]) for x in o["obs"]}
@@ -935,6 +944,8 @@ def run(ctx, only_cases=None):
             "concurrent_cases": sum(1 for c in conc if c["mode"] == "conc"),
             "cleanup_sweep_cases": sum(1 for c in conc if c["mode"] == "sweep"),
             "cleanup_sweep_cases_write_issued_while_sweep_held_the_mutex": sum(1 for c, o in zip(conc, couts) if c["mode"] == "sweep" and o.get("overlap")),
+            "large_value_reader_vs_in_place_writer_cases": sum(1 for c in conc if c["mode"] == "torn"),
+            "large_value_snapshots_checked_against_the_writers_invariant": sum(o["obs"][0][1] for c, o in zip(conc, couts) if c["mode"] == "torn" and o.get("obs")),
             "reader_upgrade_vs_writer_cases": sum(1 for c in conc if c["mode"] == "upgrade"),
             "reader_upgrade_vs_writer_cases_both_parked_on_the_mutex": sum(1 for c, o in zip(conc, couts) if c["mode"] == "upgrade" and o.get("overlap")),
             "reader_upgrade_vs_writer_explained_by_order": {k: sum(1 for c, o in zip(conc, couts) if c["mode"] == "upgrade" and o.get("order") == k) for k in ("rw", "wr")},
